@@ -9,8 +9,8 @@ META = {
     "engine": "qsym-translator",
     "technique": "Coq reflection proofs that every apply_operation kernel (executed symbolically on formal basis columns and formal gate parameters) equals the reference linear map + exact differential: whole circuits simulated by vm_compute over Q(zeta_8) inside Coq and compared with default.qubit's results",
     "design_ref": "DESIGN.md §3 C26, §2.5",
-    "text": "(a) For each supported operation and several register sizes / wire positions the real kernel pennylane.devices.qubit.apply_operation is run on object arrays holding formal basis columns and formal parameters; Coq proves that its output on every basis column equals the reference map (operator matrix embedded on the listed wires, first wire most significant) for ALL parameter values (kernel_matches_matrix_forall). (b) Random circuits (1-5 wires quick, 6 thorough; random wire labels and device wire orders; numpy/autograd/jax/torch interfaces; controlled, adjoint, GlobalPhase, BasisState) with angles whose half-angle cosines are rational are executed on default.qubit; the same circuit is simulated EXACTLY inside Coq (theorem reference_run_denotes ties the polynomial run to the complex-number semantics) and state, probabilities (any wire subset/order), expectation values, variances, reduced density matrices and purities are compared with the exact values (1e-9).",
-    "note": "Trusted: Coq kernel + stdlib real axioms; translator qsym/qx (spot-checked); kernels the translator cannot run symbolically (GroverOperator shortcut, sparse / large-matrix paths) are covered only by (b)/not at all and listed in the evidence; entropies and mutual information are not compared; broadcasting through whole executions only via C07's batched-kernel obligations.",
+    "text": "(a) For each supported operation and several register sizes / wire positions the real kernel pennylane.devices.qubit.apply_operation is run on object arrays holding formal basis columns and formal parameters; Coq proves that its output on every basis column equals the reference map (operator matrix embedded on the listed wires, first wire most significant) for ALL parameter values (kernel_matches_matrix_forall). (b) Random circuits (1-5 wires quick, 6 thorough; random wire labels and device wire orders; numpy/autograd/jax/torch interfaces; controlled, adjoint, GlobalPhase, leading BasisState/StatePrep on wire subsets in any order, referenced by X gates / a Householder unitary on |0..0>) with angles whose half-angle cosines are rational are executed on default.qubit; the same circuit is simulated EXACTLY inside Coq (theorem reference_run_denotes ties the polynomial run to the complex-number semantics) and state, probabilities (any wire subset/order), expectation values, variances, reduced density matrices, purities, von Neumann entropies and mutual information (natural and explicit log_base) are compared with the exact values (1e-9).",
+    "note": "Trusted: Coq kernel + stdlib real axioms; translator qsym/qx (spot-checked); kernels the translator cannot run symbolically (GroverOperator shortcut, sparse / large-matrix paths) are covered only by (b)/not at all and listed in the evidence; broadcasting through whole executions only via C07's batched-kernel obligations.",
     "assumptions": ["float error of default.qubit for <= 6 wires and <= 20 gates is below 1e-9"],
     "trusted": ["translator harness/qsym.py, qx.py", "exact post-processing of the reference state in harness/exactsim.py (numpy on the exact amplitudes)"],
 }
@@ -39,6 +39,16 @@ def expected(state, n, dev_wires, m):
             O = np.kron(O, PAULI[ch])
         e = exactsim.expval(state, n, O, idx(m["wires"]))
         return e if m["kind"] == "expval" else 1.0 - e * e      # Pauli words square to the identity
+    if m["kind"] in ("vn_entropy", "mutual_info"):
+        def entropy(ws):                      # von Neumann entropy of the reduced state on ws, in the requested base
+            psi = np.moveaxis(state.reshape([2] * n), ws, range(len(ws))).reshape(2 ** len(ws), -1)
+            p = np.linalg.svd(psi, compute_uv=False) ** 2
+            p = p[p > 1e-300]
+            return float(-(p * np.log(p)).sum() / (np.log(m["log_base"]) if m["log_base"] else 1.0))
+        if m["kind"] == "vn_entropy":
+            return entropy(idx(m["wires"]))
+        a, b = idx(m["wires0"]), idx(m["wires1"])
+        return entropy(a) + entropy(b) - entropy(a + b)
     ws = idx(m["wires"])
     psi = np.moveaxis(state.reshape([2] * n), ws, range(len(ws))).reshape(2 ** len(ws), -1)
     rho = psi @ psi.conj().T
@@ -59,6 +69,9 @@ def run(ctx):
         ctx.violation(f"kernel:{o['op']}:{o['n']}:{o['wires']}", {"operation": o["op"], "register_wires": o["n"], "op_wires": o["wires"], "obligation": name,
                       "meaning": "apply_operation(op, |c>) differs from (matrix of op on those wires)|c> for some basis column / parameter value"},
                       found_input=True, what=f"default.qubit kernel for {o['op']} on wires {o['wires']} of {o['n']} does not implement the operator's matrix")
+    for r in runs:
+        if r.get("fixed") and r["status"] == "notex":      # a fixed-corpus case must always reach the exact reference
+            ctx.broken_obligation("fixed-corpus", json.dumps(r["ops"])[:200], r.get("detail", ""))
     okruns = [r for r in runs if r["status"] == "ok"]
     states = exactsim.exact_states(ctx, "ref", [(r["n"], r["circuit"]) for r in okruns])
     worst = 0.0
@@ -93,6 +106,8 @@ def run(ctx):
                          "kernel_obligations": len(obl), "exact_runs": len(okruns), "measurement_kinds": kinds, "worst_abs_err": worst,
                          "interfaces": {k: sum(1 for r in okruns if r["interface"] == k) for k in ("numpy", "autograd", "jax", "torch")},
                          "not_symbolic": [(i["op"], i["detail"][:60]) for i in items if i["status"] != "ok"][:10],
-                         "runs_not_exact": sum(1 for r in runs if r["status"] == "notex")})
+                         "runs_not_exact": sum(1 for r in runs if r["status"] == "notex"),
+                         "fixed_corpus_cases": sum(1 for r in okruns if r.get("fixed")),
+                         "runs_with_leading_state_prep": sum(1 for r in okruns if r["ops"] and r["ops"][0].startswith(("StatePrep", "BasisState")))})
     for r in okruns[:2]:
         ctx.sample({"ops": r["ops"], "meas": r["meas"], "interface": r["interface"]})
